@@ -84,6 +84,14 @@ def cases(tier, seed):
         for cell in ("two\r\nlines", "bare\rreturn", "unix\nbreak", "mixed\r\n\n\rend", " spaces "):  # (quotes and delimiters inside cells make the dialect sniffing ambiguous: not "safe" content)
             yield {"kind": "csvread", "t": "csvread-quoted", "delim": delim, "header": ["a", "b", "c"], "quoted": True,
                    "rows": [["first", cell, "last"], ["x", "plain", "z"], ["p", cell + cell, "q"]]}
+    # files longer than the 1 KiB (4 KiB, 8 KiB) a reader may look at first: the first row is padded one character at a time so that
+    # a row end - and each half of a CRLF - falls on every offset around the edge
+    for edge in (1024, 4096, 8192) + ((65536,) if tier == "thorough" else ()):
+        nrows = edge // 13 + 12
+        for shift in range(0, 16):
+            for term in ("\r\n", "\n"):
+                rows = [["p" * shift + "v0", "w", "x"]] + [["v%03d" % (i % 1000), "w%d" % (i % 10), "xyz"] for i in range(nrows)]
+                yield {"kind": "csvread", "t": "csvread-long", "delim": ",", "header": ["a", "b", "c"], "rows": rows, "term": term}
     # the headerless door: column names from the caller, every row of the file is data - also a first row that "looks like" a header
     for delim, door in itertools.product([",", ";"], ["uri", "kw"]):
         for rows in ([["unknown", "n/a", "-"], ["web01", "20", "up"], ["web02", "30", "up"], ["web03", "40", "down"]],
@@ -331,10 +339,11 @@ def csvread_check(case, viol):
                 wr.writerow(case["header"])
                 wr.writerows(case["rows"])
             else:
+                term = case.get("term", "\r\n")
                 if not case.get("headerless"):
-                    f.write(case["delim"].join(case["header"]) + "\r\n")
+                    f.write(case["delim"].join(case["header"]) + term)
                 for row in case["rows"]:
-                    f.write(case["delim"].join(row) + "\r\n")
+                    f.write(case["delim"].join(row) + term)
         try:
             if case.get("headerless") == "uri":
                 # no header row in the file: the column names are given by the caller
